@@ -27,8 +27,23 @@ def model_load_images_norm(r):
     return ["ok", [cells, comp, dump]]
 
 
-def legacy_suites(chk, rng, R, known, n):
-    """older images (1.0/1.1) and rpms (0.1-0.3) documents: implementation vs model readers + re-filing oracle"""
+def placement_only(r):
+    """for C10 the tie is about WHERE things are filed (variant / arch / path or name), not about every attribute"""
+    if not (isinstance(r, list) and r and r[0] == "ok" and isinstance(r[1], list)):
+        return [r[0], r[1]] if (isinstance(r, list) and len(r) > 1) else r
+    body = r[1]
+    if len(body) == 3 and isinstance(body[0], dict) and all(isinstance(a, dict) for a in body[0].values()):
+        first = body[0]
+        if all(isinstance(cell, list) for a in first.values() for cell in a.values()):          # images: cells of field dicts
+            return ["ok", {v: {a: sorted(str(o.get("path")) for o in cell) for a, cell in arches.items()} for v, arches in first.items()}]
+    if len(body) == 3 and isinstance(body[1], dict):                                            # rpms: compose, payload, dump
+        return ["ok", {v: {a: {s: sorted(tab) for s, tab in srpms.items()} for a, srpms in arches.items()} for v, arches in body[1].items()}]
+    return r
+
+
+def legacy_suites(chk, rng, R, known, n, full=False):
+    """older images (1.0/1.1) and rpms (0.1-0.3) documents: implementation vs model readers + re-filing oracle.
+    full=True compares every attribute (C05: faithful upgrade); otherwise only the placement (C10)."""
     # legacy images documents with 'src' cells
     docs = [{"doc": DL.gen_images_doc(rng, R)} for _ in range(n)]
 
@@ -58,7 +73,7 @@ def legacy_suites(chk, rng, R, known, n):
 
     core.differential(chk, "docs_legacy:images", docs, "load_images", model_cases=[c["doc"] for c in docs],
                       impl_fn="impl_load_legacy_images", nontrivial=lambda c, r: r[0] == "ok" and any("src" in a for a in c["doc"]["payload"]["images"].values()),
-                      oracle=oracle_img, normalise=model_load_images_norm)
+                      oracle=oracle_img, normalise=(model_load_images_norm if full else (lambda r: placement_only(model_load_images_norm(r)))))
     # rpms 0.3 documents
     rdocs = [{"kind": "rpms", "doc": DL.gen_rpms_doc(rng, R)} for _ in range(n)]
 
@@ -85,7 +100,8 @@ def legacy_suites(chk, rng, R, known, n):
 
     core.differential(chk, "docs_legacy:rpms", rdocs, "load_rpms", model_cases=[c["doc"] for c in rdocs],
                       impl_fn="impl_load_rpms", nontrivial=lambda c, r: r[0] == "ok" and len(r[1][1]) >= 1, oracle=oracle_rpms,
-                      normalise=lambda r: ["ok", [r[1][0], r[1][1], (r[1][2][0] if isinstance(r[1][2], list) else r[1][2])]] if (isinstance(r, list) and r and r[0] == "ok") else r)
+                      normalise=(lambda r: (lambda x: x if full else placement_only(x))(
+                          ["ok", [r[1][0], r[1][1], (r[1][2][0] if isinstance(r[1][2], list) else r[1][2])]] if (isinstance(r, list) and r and r[0] == "ok") else r)))
 
 
 def run(chk):
